@@ -11,6 +11,7 @@
 import IocProofs.Lemmas.Order
 import Ioc.Generated.Facts
 import IocProofs.Lemmas.SemOrder
+import IocProofs.Lemmas.SemConfigure
 namespace Ioc.C12
 open Ioc Ioc.Order
 
@@ -391,5 +392,25 @@ example : Go.run (Sem.sortPrims (fun lt l => isort lt l) (fun i => [Part.plain, 
     Progs.sortOrderedComponents [.list ([0, 1, 2, 3, 4].map Sem.encR)] () =
     some (.list ([4, 2, 3, 1, 0].map Sem.encR), ()) :=
   (Sem.sortOrderedComponents_sem _ _ (by rfl) _).trans (by rfl)
+
+/-- configure.loadConfigure, regenerated (configure/configure.go:54-72): the loader list is replaced by what
+    SortOrderedComponents returns for it, and the loaders are walked in THAT order — LoadConfig, then SetConfig when the
+    document is not empty, the first error ends the walk: M4's `twoStepLoop` (the function `C12_loaders_in_order` and C15's
+    `C15_load_is_merge` are about).  For every loader behaviour `res` and every arrangement `sorted`. -/
+theorem C12_code_loadConfigure (res : Nat → Step) (sorted : List Nat) (w : Sem.CfgW) :
+    Go.run (Sem.cfgPrims res sorted) Progs.cfg_loadConfigure [] w =
+      some (if (twoStepLoop res sorted w.log).2 then Sem.errG else .nil,
+            { loaders := sorted, log := (twoStepLoop res sorted w.log).1 }) :=
+  Sem.loadConfigure_sem res sorted w
+
+/-- Configure.Initialize, regenerated: nothing happens for an empty loader list; otherwise loadConfigure runs — on EVERY
+    call, there is no "already initialised" state (what the seeded changes C12B and, in round 3, "incremental Initialize"
+    broke) -/
+theorem C12_code_Initialize (res : Nat → Step) (sorted : List Nat) (w : Sem.CfgW) :
+    Go.run (Sem.initPrims res sorted) Progs.cfg_Initialize [] w =
+      if w.loaders.isEmpty then some (.nil, w)
+      else some (if (twoStepLoop res sorted w.log).2 then Sem.errG else .nil,
+                 { loaders := sorted, log := (twoStepLoop res sorted w.log).1 }) :=
+  Sem.initialize_sem res sorted w
 
 end Ioc.C12
